@@ -159,8 +159,10 @@ harness!(ident_3, 4, stub(crate::tokens::token_type::TokenType::get_index, get_i
 });
 
 //# harness ident_non_ascii tier=quick label=bounded(1-input) props=C07,C09 fn=rusty_parser/src/tokens/any_token.rs::identifier timeout=900
-harness!(ident_non_ascii, 3, stub(crate::tokens::token_type::TokenType::get_index, get_index_is_discriminant), {
+harness!(ident_non_ascii, 24, stub(crate::tokens::token_type::TokenType::get_index, get_index_is_discriminant), {
     // a letter outside ASCII never starts an identifier: the checker's char_to_alphabet_index panics on such a name
+    // (unwind 24, far more than the clean tree needs: a tree that accepts the letter goes on into the Unicode table search of char::is_alphabetic and the loops of the
+    // recogniser, and the verdict must then be the failed clause, not an unwinding assertion)
     let mut a = StringView::from("\u{e9}1");
     let ra = identifier().parse(&mut a);
     assert!(matches!(&ra, Err(e) if e.is_soft()), "e-acute cannot start an identifier: soft failure");
@@ -169,7 +171,7 @@ harness!(ident_non_ascii, 3, stub(crate::tokens::token_type::TokenType::get_inde
 });
 
 //# harness ident_non_ascii_more tier=thorough label=bounded(3-inputs) props=C07,C09 fn=rusty_parser/src/tokens/any_token.rs::identifier timeout=1800
-harness!(ident_non_ascii_more, 3, stub(crate::tokens::token_type::TokenType::get_index, get_index_is_discriminant), {
+harness!(ident_non_ascii_more, 5, stub(crate::tokens::token_type::TokenType::get_index, get_index_is_discriminant), {
     let mut b = StringView::from("\u{3a9}");
     let rb = identifier().parse(&mut b);
     assert!(matches!(&rb, Err(e) if e.is_soft()) && b.get_position() == 0, "Greek capital omega cannot start an identifier");
@@ -439,7 +441,7 @@ fn lookup_family_body<const K: usize, const N: usize>(kw: &[u8; K], expected: Ke
     }
 }
 
-//# harness keyword_lookup_family_2 tier=quick label=bounded(words:IF-TO-OR,any-case,0-or-1-more-letter) props=C09 fn=rusty_parser/src/core/keyword.rs::Keyword::try_from timeout=900
+//# harness keyword_lookup_family_2 tier=thorough label=bounded(words:IF-TO-OR,any-case,0-or-1-more-letter) props=C09 fn=rusty_parser/src/core/keyword.rs::Keyword::try_from timeout=900
 harness!(keyword_lookup_family_2, 9, {
     lookup_family_body::<2, 2>(b"if", Keyword::If);
     lookup_family_body::<2, 3>(b"if", Keyword::If);
@@ -468,7 +470,7 @@ fn keyword_body<const K: usize, const N: usize>(kw: &[u8; K], mask: u8, next: u8
     used
 }
 
-//# harness keyword_end_2 tier=quick label=bounded(keywords-IF-TO-OR,any-case,end-of-text) props=C09,C20 fn=rusty_parser/src/tokens/any_token.rs::any_keyword timeout=1800
+//# harness keyword_end_2 tier=thorough label=bounded(keywords-IF-TO-OR,any-case,end-of-text) props=C09,C20 fn=rusty_parser/src/tokens/any_token.rs::any_keyword timeout=1800
 harness_bi!(keyword_end_2, 3, {
     // IF / TO / OR in any of the 4 case spellings, at the end of the text
     let which = vs::choice(3);
